@@ -10,14 +10,13 @@
     [assert!(x1 < y)]) and [EFuel] (the model's own loop fuel; proved
     unreachable).
 
-    The tables and constants ([ALPHABET], [B58], [RADII], [RADIX], chunk
+    The tables and constants ([ALPHABET], [B58], [RADII], [RADIX], [REC], chunk
     widths, the fill byte, the id width) are *generated* from the sources on
     every run ([gen/GenB58.v]).
 
-    Modelled by specification, not by its instruction sequence: [div_ww]
-    (Möller–Granlund reciprocal division of a two-word value by [RADIX]); it
-    is given its documented result [(x1*2^64+x0) / y, … mod y] together with
-    its [assert!(x1 < y)]. *)
+    [arith::div_ww] (Möller–Granlund reciprocal division of a two-word value by
+    [RADIX]) is transcribed instruction by instruction over integers modulo
+    2^64 and proved to return quotient and remainder. *)
 From Aranya Require Import base.Tactics gen.GenB58.
 Open Scope N_scope.
 
@@ -46,9 +45,41 @@ Definition checked_add64 (a b : N) : option N := if a + b <? W64 then Some (a + 
 Definition mul_add_ww (x y c : N) : N * N :=
   let z := ((x * y) mod W128 + c) mod W128 in (z / W64, z mod W64).
 
-(** [arith::div_ww] by specification (see the header). *)
-Definition div_ww (x1 x0 y : N) : option (N * N) :=
-  if x1 <? y then Some ((x1 * W64 + x0) / y, (x1 * W64 + x0) mod y) else None.
+(** [arith::div_ww] (Möller–Granlund division of the two-word value [x1:x0] by [y] with the
+    precomputed reciprocal [m]), instruction by instruction.  [u64] values are integers in
+    [0, 2^64); [wrapping_*] and [<<] are arithmetic modulo 2^64 ([wrap]); [overflowing_add/sub]
+    report the carry / borrow.  [None] is the [assert!(x1 < y)]. *)
+Definition ZW : Z := 18446744073709551616%Z.          (* 2^64 *)
+Definition ZW128 : Z := 340282366920938463463374607431768211456%Z.
+Definition wrap (z : Z) : Z := (z mod ZW)%Z.
+Definition mul64 (x y : Z) : Z * Z := let z := ((x * y) mod ZW128)%Z in ((z / ZW)%Z, (z mod ZW)%Z).
+Definition leading_zeros (y : Z) : Z := if (y =? 0)%Z then 64%Z else (63 - Z.log2 y)%Z.
+
+Definition div_ww_z (x1 x0 y m : Z) : option (Z * Z) :=
+  if negb (x1 <? y)%Z then None
+  else
+    let s := leading_zeros y in
+    let '(x1, x0, y) :=
+      if (s =? 0)%Z then (x1, x0, y)
+      else (Z.lor (wrap (x1 * 2 ^ s)) (x0 / 2 ^ (64 - s)), wrap (x0 * 2 ^ s), wrap (y * 2 ^ s))%Z in
+    let d := y in
+    let '(t1, t0) := mul64 m x1 in
+    let c := if (t0 + x0 <? ZW)%Z then 0%Z else 1%Z in
+    let t1 := wrap (wrap (t1 + x1) + c) in
+    let qq := t1 in
+    let '(dq1, dq0) := mul64 d qq in
+    let r0 := wrap (x0 - dq0) in
+    let b := if (x0 <? dq0)%Z then 1%Z else 0%Z in
+    let r1 := wrap (wrap (x1 - dq1) - b) in
+    let '(qq, r0) := if negb (r1 =? 0)%Z then (wrap (qq + 1), wrap (r0 - d)) else (qq, r0) in
+    let '(qq, r0) := if (d <=? r0)%Z then (wrap (qq + 1), wrap (r0 - d)) else (qq, r0) in
+    Some (qq, (r0 / 2 ^ s)%Z).
+
+Definition div_ww (x1 x0 y m : N) : option (N * N) :=
+  match div_ww_z (Z.of_N x1) (Z.of_N x0) (Z.of_N y) (Z.of_N m) with
+  | Some (q, r) => Some (Z.to_N q, Z.to_N r)
+  | None => None
+  end.
 
 (** ** [Uint<W, B>] *)
 (** [fma]: [for x in &mut self.words { (c, *x) = mul_add_ww( *x, y, c) }; c == 0]. *)
@@ -71,7 +102,7 @@ Fixpoint quo_loop (ws_rev : list N) (r : N) : option (list N * N) :=
   match ws_rev with
   | [] => Some ([], r)
   | x :: t =>
-    match div_ww r x RADIX with
+    match div_ww r x RADIX REC with
     | None => None
     | Some (q, r') =>
       match quo_loop t r' with
